@@ -101,3 +101,101 @@ Proof. exact Stable.prefix_stable_refuted_array. Qed.
    structure, a bits block with an alias, a virtual field and a [requires] *)
 Example wf_stable_inhabited : wf_stable m_ex = true.
 Proof. exact Stable.wf_stable_example. Qed.
+
+(* ---------- agreement with the reference semantics (View/Ref.v; proved in View/RefProofs.v) ---------- *)
+Require Import EmbossV.View.Ref EmbossV.View.RefProofs.
+
+(* The generated code reports exactly what the language reference defines.  [Ref.is_ref_model d ps bytes rho]:
+   rho assigns to every field its existence and its value as the reference defines them over the message
+   `bytes` (a field exists iff its condition holds; a physical scalar is the decode of exactly the bytes
+   [start, start+size) in its byte order, where start may depend on other fields; a virtual field is its
+   expression; an alias is the field it names; $size_in_bytes is the largest end of a present field; a fact
+   that needs an absent field or a byte outside the message is undefined).
+   For EVERY structure in the decidable class [wf_ref] (byte-addressed; physical fields are scalars of any kind,
+   width and byte order with a constant size and an arbitrary start expression; existence conditions,
+   [requires], unconditional virtual fields, aliases of scalars, parameters, $size_in_bytes used in
+   expressions; dependencies listed in [order]), every parameter list, EVERY byte string -- complete,
+   truncated or garbage -- and every sufficient nesting fuel, the model of the generated code reports:
+   IntrinsicSize/SizeIsKnown, IsComplete, Ok, and for every field has_x() (tri-state), x().Ok() and the value,
+   EQUAL to the reference: known exactly when the reference defines it, and with the same value.
+   `_partial`: the class excludes arrays (finding F9), nested structures, bits blocks and conditional
+   virtual fields (refuted below); for those the model is tied to the C++ by correspondence only. *)
+Theorem gen_agrees_with_ref_partial : forall m d ps bytes rho fuel,
+  wf_ref d = true -> is_ref_model d ps bytes rho -> (2 <= fuel)%nat ->
+  let r := eval_struct m bytes fuel d ps true (root bytes) in
+  fr_ssize r = ref_size d rho /\
+  fr_scomplete r = ref_complete d bytes rho /\
+  fr_sok r = ref_ok d bytes rho /\
+  forall i, (i < length (fields d))%nat ->
+    exists g, nth_error (fr_sub r) i = Some (Some g) /\
+      fr_has g = r_present (rget rho i) /\
+      fr_ok g = is_some (r_value (rget rho i)) /\
+      (fr_ok g = true -> fr_val g = r_value (rget rho i)).
+Proof. exact RefProofs.gen_agrees_with_ref. Qed.
+Print Assumptions gen_agrees_with_ref_partial.
+
+(* ... in particular the whole observation vector that the harness compares with the real C++ *)
+Theorem gen_observations_are_ref : forall m tid d ps bytes rho fuel,
+  nth_error m tid = Some d -> wf_ref d = true -> is_ref_model d ps bytes rho -> (2 <= fuel)%nat ->
+  run_view m tid ps bytes fuel = ref_observe d bytes rho.
+Proof. exact RefProofs.gen_observations_are_ref. Qed.
+Print Assumptions gen_observations_are_ref.
+
+(* the reference exists (its equations are solved by iterating them once per field from "nothing
+   defined": [ref_solve], the function the harness runs) and is unique *)
+Theorem ref_model_exists : forall d ps bytes,
+  wf_ref d = true -> is_ref_model d ps bytes (ref_solve d ps bytes).
+Proof. exact RefProofs.ref_model_exists. Qed.
+Theorem ref_model_unique : forall d ps bytes rho rho',
+  wf_ref d = true -> is_ref_model d ps bytes rho -> is_ref_model d ps bytes rho' -> rho = rho'.
+Proof. exact RefProofs.ref_model_unique. Qed.
+Print Assumptions ref_model_exists.
+
+(* Whatever the generated code reports as known on a PREFIX of a message is what the reference defines
+   for the WHOLE message (with prefix_stable_partial; hence also [wf_stable]) *)
+Theorem gen_known_is_ref_of_whole_message : forall m d ps bytes extra rho' fuel,
+  wf_stable m = true -> In d m -> wf_ref d = true ->
+  is_ref_model d ps (bytes ++ extra) rho' -> (2 <= fuel)%nat ->
+  let r := eval_struct m bytes fuel d ps true (root bytes) in
+  (fr_sok r = true -> ref_ok d (bytes ++ extra) rho' = true) /\
+  (fr_scomplete r = true -> ref_complete d (bytes ++ extra) rho' = true) /\
+  (forall z, fr_ssize r = Some z -> ref_size d rho' = Some z) /\
+  (forall i g, nth_error (fr_sub r) i = Some (Some g) ->
+     (forall b, fr_has g = Some b -> r_present (rget rho' i) = Some b) /\
+     (fr_ok g = true -> r_value (rget rho' i) = fr_val g /\ fr_val g <> None)).
+Proof. exact RefProofs.gen_known_is_ref_of_whole_message. Qed.
+Print Assumptions gen_known_is_ref_of_whole_message.
+
+(* Outside the class the agreement is false of the faithful model: a conditional virtual field that does
+   not exist is reported Ok() with a value (known finding virtual-ok-ignores-existence) *)
+Theorem gen_agrees_with_ref_refuted_conditional_virtual :
+  exists d ps bytes rho,
+    is_ref_model d ps bytes rho /\
+    let r := eval_struct [d] bytes 8 d ps true (root bytes) in
+    exists g, nth_error (fr_sub r) 1 = Some (Some g) /\
+      fr_has g = Some false /\ r_present (rget rho 1) = Some false /\
+      fr_ok g = true /\ fr_val g = Some (VInt 400) /\ r_value (rget rho 1) = None.
+Proof. exact RefProofs.gen_agrees_with_ref_refuted_conditional_virtual. Qed.
+
+(* the class is inhabited by a structure with a parameter, a conditional big-endian field, a field at a
+   dynamic offset with [requires], a virtual field and an alias; on a complete and on a truncated message *)
+Example wf_ref_inhabited : wf_ref d_ref_ex = true.
+Proof. exact RefProofs.wf_ref_example. Qed.
+Example wf_ref_inhabited_complete :
+  let bytes := [1; 3; 2; 5; 0; 7] in
+  let rho := ref_solve d_ref_ex [Some (VInt 10)] bytes in
+  is_ref_model d_ref_ex [Some (VInt 10)] bytes rho /\
+  r_value (rget rho 3) = Some (VInt 517) /\ r_value (rget rho 4) = Some (VInt 7) /\
+  r_value (rget rho 5) = Some (VInt 11) /\ r_value (rget rho 6) = Some (VInt 517) /\
+  ref_size d_ref_ex rho = Some 6 /\ ref_complete d_ref_ex bytes rho = true /\ ref_ok d_ref_ex bytes rho = true /\
+  run_view [d_ref_ex] 0 [Some (VInt 10)] bytes 8 = ref_observe d_ref_ex bytes rho.
+Proof. exact RefProofs.wf_ref_example_complete. Qed.
+
+(* The reference gives a structure of fixed size (every physical field at a constant location, no
+   conditional field beyond the last unconditional one) that constant as $size_in_bytes whatever the
+   message holds ("FixedSize.$size_in_bytes will always be 6"); this never contradicts the general
+   definition "largest end of a present field": wherever that is defined, the two coincide. *)
+Theorem static_size_consistent : forall d rho z z',
+  static_size (fields d) = Some z -> dynamic_size d rho = Some z' -> z' = z.
+Proof. exact RefProofs.static_size_consistent. Qed.
+Print Assumptions static_size_consistent.
